@@ -48,6 +48,7 @@ int main(int argc, char** argv) {
 			if (!fam) throw std::runtime_error("unknown family " + family);
 			uint64_t seed = sim::runSeed(base, prop, family, index);
 			sim::Rng rng(seed);
+			sim::g_genIndex = index;
 			sim::Plan p = fam->generate(prop, rng, thorough);
 			p.property = prop;
 			p.family = family;
